@@ -114,6 +114,7 @@ type EzSpec struct {
 	Linked     bool     `json:"linked,omitempty"`      // the config path is a symlink to a file with another name and extension; new versions are published by re-pointing it
 	Flatten    bool     `json:"flatten,omitempty"`     // Params.FlattenAnonymousFields
 	EmbLeaf    bool     `json:"emb_leaf,omitempty"`    // YAML files may set the embedded struct's leaf
+	EqPath     bool     `json:"eq_path,omitempty"`     // the config file lives in a directory with '=' in its name
 	WatchFlags bool     `json:"watch_flags,omitempty"` // Params.FlagSource is a watching source of the application's own: it reports new flag values after the entry point has returned
 	Writes     []EzPart `json:"writes,omitempty"`
 	WriteHow   []string `json:"write_how,omitempty"` // rename | rewrite | delete-create
@@ -138,6 +139,10 @@ func genEz(seed uint64, faulty bool) *Scenario {
 		n := int(g.id())
 		switch leaf {
 		case "ez_name", "ez_db.host", "ez_db.tls.cert":
+			if g.pct(25) {
+				// a value with '=' in it (a padded base64 secret, a key=value string)
+				return fmt.Sprintf("n%d=k=v==", n)
+			}
 			return fmt.Sprintf("n%d", n)
 		case "ez_forbidden":
 			return "false"
@@ -237,6 +242,7 @@ func genEz(seed uint64, faulty bool) *Scenario {
 		emptied(&e.File)
 	}
 	e.Linked = e.FileState == "ok" && g.pct(20)
+	e.EqPath = g.pct(30)
 	if e.Watch || g.pct(30) {
 		n := g.in(0, 4)
 		for i := 0; i < n; i++ {
@@ -587,17 +593,21 @@ func runEz(sc *Scenario, res *Result, keepLog bool) {
 	s.Record, s.KeepLog, s.Bias = true, keepLog, sc.Bias
 	r.ctx, r.cancel = context.WithCancel(context.Background())
 	r.root = fileRoot()
+	wdir := "w"
+	if e.EqPath {
+		wdir = "env=w" // the config path itself has '=' in it
+	}
 	defer os.RemoveAll(r.root)
-	must(os.MkdirAll(filepath.Join(r.root, "w"), 0755))
+	must(os.MkdirAll(filepath.Join(r.root, wdir), 0755))
 	must(os.MkdirAll(filepath.Join(r.root, "decoy"), 0755))
-	r.path = filepath.Join(r.root, "w", "cfg."+e.Format)
+	r.path = filepath.Join(r.root, wdir, "cfg."+e.Format)
 	r.decoy = filepath.Join(r.root, "decoy", "cfg."+e.Format)
 	r.contents[e.File.ID] = &e.File
 	r.contents[e.Decoy.ID] = &e.Decoy
 	if e.FileState == "ok" {
 		if e.Linked {
-			must(os.MkdirAll(filepath.Join(r.root, "w", "store"), 0755))
-			must(os.WriteFile(filepath.Join(r.root, "w", "store", "v0.data"), e.File.render(e.Format, e.Kebab), 0644))
+			must(os.MkdirAll(filepath.Join(r.root, wdir, "store"), 0755))
+			must(os.WriteFile(filepath.Join(r.root, wdir, "store", "v0.data"), e.File.render(e.Format, e.Kebab), 0644))
 			must(os.Symlink(filepath.Join("store", "v0.data"), r.path))
 		} else {
 			must(os.WriteFile(r.path, e.File.render(e.Format, e.Kebab), 0644))
@@ -716,7 +726,7 @@ func runEz(sc *Scenario, res *Result, keepLog bool) {
 					os.Rename(r.path+".tmp", r.path)
 				case "relink":
 					tgt := filepath.Join("store", fmt.Sprintf("v%d.data", i+1))
-					os.WriteFile(filepath.Join(r.root, "w", tgt), content, 0644)
+					os.WriteFile(filepath.Join(r.root, wdir, tgt), content, 0644)
 					simrt.Yield("w.target")
 					os.Remove(r.path + ".lnk")
 					os.Symlink(tgt, r.path+".lnk")
